@@ -2220,7 +2220,11 @@ func PutSyncedTo(ns walletdb.ReadWriteBucket, bs *BlockStamp) error {
 		// longer store _all_ block hashes of the chain, so we only
 		// expect the previous block to exist once our initial sync has
 		// completed, which is dictated by our birthday block being set.
-		if _, err := FetchBirthdayBlock(ns); err == nil {
+		//
+		// The birthday block is the lowest block we store, so it is the
+		// only one that can be synced to without its predecessor.
+		bday, err := FetchBirthdayBlock(ns)
+		if err == nil && bs.Height != bday.Height {
 			_, err := fetchBlockHash(ns, bs.Height-1)
 			if err != nil {
 				return managerError(ErrBlockNotFound, errStr, err)
